@@ -25,25 +25,26 @@ FAMILY = {
         params=("ploidy",)),
     "bvmat": dict(
         data=("mat",), labels=("taxa", "trait"), grouplabels=("taxa_grp",), groupindex=TAXA_GRP_IX,
-        params=("location", "scale")),
+        params=("location", "scale", "behaviour")),
     "cmat": dict(
         data=("mat",), labels=("taxa",), grouplabels=("taxa_grp",), groupindex=TAXA_GRP_IX, params=()),
     "vmat": dict(
         data=("mat",), labels=("taxa", "trait"), grouplabels=("taxa_grp",), groupindex=TAXA_GRP_IX, params=()),
     "gmap": dict(
         data=("vrnt_phypos", "vrnt_genpos"), labels=(), grouplabels=("vrnt_chrgrp",), groupindex=VRNT_GRP_IX,
-        params=("spline_kind", "spline_fill_value", "spline")),
+        params=("spline_kind", "spline_fill_value", "spline", "behaviour")),
     "egmap": dict(
         data=("vrnt_phypos", "vrnt_stop", "vrnt_genpos"), labels=("vrnt_name", "vrnt_fncode"), grouplabels=("vrnt_chrgrp",),
-        groupindex=VRNT_GRP_IX, params=("spline_kind", "spline_fill_value", "spline")),
+        groupindex=VRNT_GRP_IX, params=("spline_kind", "spline_fill_value", "spline", "behaviour")),
     "algmod": dict(
-        data=("beta", "u_misc", "u_a"), labels=("trait",), grouplabels=(), groupindex=(), params=("model_name", "hyperparams")),
+        data=("beta", "u_misc", "u_a"), labels=("trait",), grouplabels=(), groupindex=(),
+        params=("model_name", "hyperparams", "behaviour")),
     "adgmod": dict(
         data=("beta", "u_misc", "u_a", "u_d"), labels=("trait",), grouplabels=(), groupindex=(),
-        params=("model_name", "hyperparams")),
+        params=("model_name", "hyperparams", "behaviour")),
     "rrblup": dict(
         data=("beta", "u_misc", "u_a"), labels=("trait",), grouplabels=(), groupindex=(),
-        params=("model_name", "hyperparams", "method")),
+        params=("model_name", "hyperparams", "method", "behaviour")),
     "gept": dict(
         data=(), labels=(), grouplabels=(), groupindex=(), params=("nenv", "nrep", "var_env", "var_rep", "var_err", "gpmod")),
     "truept": dict(data=(), labels=(), grouplabels=(), groupindex=(), params=("gpmod",)),
@@ -105,15 +106,78 @@ def observe(obj):
     for cat in CATS:
         for f in FAMILY[fam][cat]:
             try:
-                v = getattr(obj, f)
+                v = None if f == "behaviour" else getattr(obj, f)
             except Exception as e:  # an unreadable public attribute is itself observable
                 v = Missing("%s: %s" % (type(e).__name__, str(e)[:80]))
-            if f == "gpmod" and v is not None and not isinstance(v, Missing):
+            if f == "behaviour":
+                v = _behaviour(obj, fam)
+            elif f == "gpmod" and v is not None and not isinstance(v, Missing):
                 v = observe(v)
             elif f == "spline" and isinstance(v, dict):
                 v = {k: _spline_obs(s) for k, s in v.items()}
             out[f] = v
     return out
+
+
+def _call(fn):
+    """Result of a behavioural query, or the name of the exception it raises (both are observable)."""
+    try:
+        v = fn()
+    except Exception as e:
+        return "raises %s" % type(e).__name__
+    if hasattr(v, "vrnt_genpos") and not isinstance(v, numpy.ndarray):      # a map returned by interp_gmap
+        return {"vrnt_chrgrp": v.vrnt_chrgrp, "vrnt_phypos": v.vrnt_phypos, "vrnt_genpos": v.vrnt_genpos}
+    return v
+
+
+def _behaviour(obj, fam):
+    """What the object *does* with its (possibly non-default) construction options: queries whose answers depend on
+    parameters that no array attribute shows (interpolation kind / fill value of a map, location and scale of a
+    breeding-value matrix, the coefficient blocks of a genomic model)."""
+    if fam == "bvmat":
+        return {"unscale()": _call(obj.unscale)}
+    if fam in ("algmod", "adgmod", "rrblup"):
+        def pred():
+            q, k = int(obj.nexplan_beta), int(obj.nexplan_u)
+            X = ((numpy.arange(3 * q).reshape(3, q) % 4) - 1.0) if q else numpy.zeros((3, 0))
+            Z = (numpy.arange(3 * k).reshape(3, k) % 3).astype(float)
+            return obj.predict_numpy(X, Z)
+        return {"predict_numpy(X, Z)": _call(pred)}
+    if fam in ("gmap", "egmap"):
+        try:
+            chrs = numpy.asarray(obj.vrnt_chrgrp); pos = numpy.asarray(obj.vrnt_phypos); gen = numpy.asarray(obj.vrnt_genpos)
+            ic, ip, bc, bp = [], [], [], []
+            for u in numpy.unique(chrs):
+                p = numpy.unique(pos[chrs == u])
+                inside = numpy.unique(numpy.concatenate([p, (p[:-1] + p[1:]) // 2, (3 * p[:-1] + p[1:]) // 4]))
+                ic += [u] * len(inside); ip += inside.tolist()
+                bc += [u, u, u, u]; bp += [int(p.min()) - 7, int(p.min()) - 1, int(p.max()) + 1, int(p.max()) + 11]
+            ic = numpy.array(ic, dtype=chrs.dtype); ip = numpy.array(ip, dtype=pos.dtype)
+            bc = numpy.array(bc, dtype=chrs.dtype); bp = numpy.array(bp, dtype=pos.dtype)
+            o = numpy.lexsort((bp, bc)); bc, bp = bc[o], bp[o]
+            og = numpy.lexsort((gen, chrs))
+            # the library's position queries group (sort) an ungrouped map in place, as documented for congruence(); an
+            # observation must not change the object, so an ungrouped map is queried through a stand-in that carries the
+            # same interpolators and parameters over copies of the arrays
+            if not obj.is_grouped():
+                kw = dict(vrnt_chrgrp=chrs.copy(), vrnt_phypos=pos.copy(), vrnt_genpos=gen.copy(), spline=obj.spline,
+                          spline_kind=obj.spline_kind, spline_fill_value=obj.spline_fill_value, auto_group=True, auto_build_spline=False)
+                if fam == "egmap":
+                    kw["vrnt_stop"] = numpy.array(obj.vrnt_stop, copy=True)
+                obj = type(obj)(**kw)
+        except Exception as e:
+            return Missing("behaviour queries: %s" % type(e).__name__)
+        return {
+            "interp_genpos between markers": _call(lambda: obj.interp_genpos(ic, ip)),
+            "interp_genpos beyond the map ends": _call(lambda: obj.interp_genpos(bc, bp)),
+            "interp_gmap between markers": _call(lambda: obj.interp_gmap(ic, ip)),
+            "gdist1p between markers": _call(lambda: obj.gdist1p(ic, ip)),
+            "gdist2p between markers": _call(lambda: obj.gdist2p(ic, ip)),
+            "gdist1p beyond the map ends": _call(lambda: obj.gdist1p(bc, bp)),
+            "gdist1g own markers": _call(lambda: obj.gdist1g(chrs[og], gen[og])),
+            "gdist2g own markers": _call(lambda: obj.gdist2g(chrs[og], gen[og])),
+        }
+    return None
 
 
 def _spline_obs(s):
@@ -126,7 +190,12 @@ def _spline_obs(s):
             val = numpy.asarray(s(q), dtype=float)
         except Exception as e:
             val = "raises %s" % type(e).__name__
-        return {"x": s.x, "y": s.y, "eval": val, "__x": x, "__y": y}
+        qi = q[(q >= x.min()) & (q <= x.max())]
+        try:
+            vali = numpy.asarray(s(qi), dtype=float)
+        except Exception as e:
+            vali = "raises %s" % type(e).__name__
+        return {"x": s.x, "y": s.y, "eval": val, "eval inside the knots": vali, "__x": x, "__y": y}
     except Exception as e:
         return Missing("spline: %s" % type(e).__name__)
 
@@ -245,6 +314,9 @@ def diff(oa, ob, tol=None, skip=(), same_class=True):
             if f in skip:
                 continue
             t = tol.get(f) if isinstance(tol, dict) else tol
+            if f == "behaviour" and t is None:
+                t = 1e-9      # answers are computed (matrix products, interpolation): equal inputs in another memory layout
+                              # may differ in the last bits
             d = value_diff(oa.get(f), ob.get(f, Missing("no such field")), t)
             if d is not None:
                 out.append((f, cat, d))
